@@ -810,6 +810,11 @@ func c15Scan(c *core.Ctx) {
 // R15.10 what Remove removes is what Get serves: MemoryStore.Remove acts on the committed
 // tree (the one Get reads) on every path, whether or not a transaction is open.
 func c15Round4b(c *core.Ctx, pkg string) {
+	fieldWiseCopies(c, pkg)
+	c15RemoveRoot(c)
+}
+
+func fieldWiseCopies(c *core.Ctx, pkg string) {
 	p := c.P
 	nCopies := 0
 	for _, fn := range p.FuncsIn(pkg) {
@@ -865,6 +870,10 @@ func c15Round4b(c *core.Ctx, pkg string) {
 		})
 	}
 	c.Extra["field_wise_struct_copies"] = nCopies
+}
+
+func c15RemoveRoot(c *core.Ctx) {
+	p := c.P
 	if rm := c.Fn("R15.10", "std/object", "MemoryStore", "Remove"); rm != nil {
 		isRootRemove := func(in ssa.Instruction) bool {
 			ci, ok := in.(ssa.CallInstruction)
